@@ -87,6 +87,35 @@ def faults(rnd, n):
         out.append(("while condition type", "Solange %s, mache:\n\tVerlasse die Schleife." % sv, "Solange wahr, mache:\n\tVerlasse die Schleife."))
     out.append(("foreach collection type", "Für jede Zahl e%N% in 5, mache:\n\tDie Zahl b%N% ist e%N%.", "Für jede Zahl e%N% in (eine Liste, die aus 1, 2 besteht), mache:\n\tDie Zahl b%N% ist e%N%."))
     out.append(("foreach element type", "Für jeden Text e%N% in (eine Liste, die aus 1, 2 besteht), mache:\n\tDer Text b%N% ist e%N%.", "Für jede Zahl e%N% in (eine Liste, die aus 1, 2 besteht), mache:\n\tDie Zahl b%N% ist e%N%."))
+    # 5b further value positions with a type: list literal elements, element / field assignment, compound assignment, casts, type definitions
+    # (hn_c04: value of a type definition of Zahl, pk_c04: Kombination with the Zahl field x - both declared by OPERAND_PRELUDE)
+    for cls, bad, good in [
+        ("list literal element type", 'Die Zahlen Liste l%N% ist eine Liste, die aus 1, "a" besteht.', "Die Zahlen Liste l%N% ist eine Liste, die aus 1, 2 besteht."),
+        ("list literal element type", "Die Text Liste l%N% ist eine Liste, die aus \"a\", 2 besteht.", 'Die Text Liste l%N% ist eine Liste, die aus "a", "b" besteht.'),
+        ("list literal element type", "Die Zahlen Liste l%N% ist eine Liste, die aus 1, hn_c04 besteht.", "Die Zahlen Liste l%N% ist eine Liste, die aus 1, (hn_c04 als Zahl) besteht."),
+        ("element assignment type", 'Die Zahlen Liste l%N% ist eine Liste, die aus 1, 2 besteht.\nSpeichere "a" in l%N% an der Stelle 1.',
+         "Die Zahlen Liste l%N% ist eine Liste, die aus 1, 2 besteht.\nSpeichere 3 in l%N% an der Stelle 1."),
+        ("element assignment type", 'Der Text t%N% ist "abc".\nSpeichere "x" in t%N% an der Stelle 1.', "Der Text t%N% ist \"abc\".\nSpeichere 'x' in t%N% an der Stelle 1."),
+        ("field assignment type", 'Speichere "a" in x von pk_c04.', "Speichere 3 in x von pk_c04."),
+        ("field assignment type", "Speichere hn_c04 in x von pk_c04.", "Speichere (hn_c04 als Zahl) in x von pk_c04."),
+        ("unknown field", "Die Zahl q%N% ist y von pk_c04.", "Die Zahl q%N% ist x von pk_c04."),
+        ("field of a non-Kombination", "Die Zahl z%N% ist 1.\nDie Zahl q%N% ist x von z%N%.", "Die Zahl q%N% ist x von pk_c04."),
+        ("compound assignment type", 'Der Text t%N% ist "a".\nErhöhe t%N% um 1.', "Die Zahl t%N% ist 1.\nErhöhe t%N% um 1."),
+        ("compound assignment type", 'Die Zahl t%N% ist 1.\nErhöhe t%N% um "a".', "Die Zahl t%N% ist 1.\nErhöhe t%N% um 2."),
+        ("compound assignment type", "Der Wahrheitswert t%N% ist wahr.\nVervielfache t%N% um 2.", "Die Zahl t%N% ist 1.\nVervielfache t%N% um 2."),
+        ("compound assignment type", "Verringere hn_c04 um 1.", "Die Zahl t%N% ist 1.\nVerringere t%N% um 1."),
+        ("cast type", 'Die Variable c%N% ist ("abc" als Zahlen Liste).', 'Die Variable c%N% ist ("5" als Zahl).'),
+        ("cast type", "Die Variable c%N% ist (pk_c04 als Zahl).", "Die Variable c%N% ist (hn_c04 als Zahl)."),
+        ("cast type", "Die Variable c%N% ist (wahr als Hausnummer_c04).", "Die Variable c%N% ist (7 als Hausnummer_c04)."),
+        ("type definition is opaque", "Die Hausnummer_c04 h%N% ist 5.", "Die Hausnummer_c04 h%N% ist 5 als Hausnummer_c04."),
+        ("type definition is opaque", "Die Zahl z%N% ist hn_c04.", "Die Zahl z%N% ist hn_c04 als Zahl."),
+        ("type definition is opaque", "Die Zahl z%N% ist 1.\nSpeichere hn_c04 in z%N%.", "Die Zahl z%N% ist 1.\nSpeichere (hn_c04 als Zahl) in z%N%."),
+        ("type definition is opaque", "Die Kommazahl z%N% ist hn_c04.", "Die Kommazahl z%N% ist (hn_c04 als Zahl)."),
+        ("Kombination value type", "Der Punkt_c04 p%N% ist 5.", "Der Punkt_c04 p%N% ist Standard_Punkt_c04."),
+        ("Kombination value type", "Die Zahl z%N% ist pk_c04.", "Die Zahl z%N% ist x von pk_c04."),
+        ("type test on a non-Variable", "Der Wahrheitswert w%N% ist (5 eine Zahl ist).", "Die Variable v%N% ist 5.\nDer Wahrheitswert w%N% ist (v%N% eine Zahl ist)."),
+    ]:
+        out.append((cls, bad, good))
     # 6 Konstante: assignment, compound assignment, Referenz passing
     konst = "Die Konstante k%N% ist 5.\n"
     out.append(("constant: assignment", konst + "Speichere 6 in k%N%.", konst + "Die Zahl z%N% ist k%N%."))
@@ -162,6 +191,23 @@ def toplevel_faults():
     out.append(("literal as Referenz argument", ref + "setz%N% 5.\n", ref + "Die Zahl k%N% ist 5.\nsetz%N% k%N%.\n", {}))
     ref2 = ref + ref.replace("Funktion setz%N%", "Funktion setzt%N%").replace("Zahlen Referenz", "Text Referenz").replace("Speichere 1 in a", 'Speichere "x" in a')
     out.append(("constant: Referenz passing to overloaded alias", ref2 + "Die Konstante k%N% ist 5.\nsetz%N% k%N%.\n", ref2 + "Die Zahl k%N% ist 5.\nsetz%N% k%N%.\n", {}))
+    # argument, Referenz argument and returned value over every non-assignable pair of types
+    refname = {"Zahl": "Zahlen Referenz", "Kommazahl": "Kommazahlen Referenz", "Byte": "Byte Referenz", "Wahrheitswert": "Wahrheitswert Referenz", "Buchstabe": "Buchstaben Referenz",
+               "Text": "Text Referenz", "Zahlen Liste": "Zahlen Listen Referenz", "Text Liste": "Text Listen Referenz"}
+    retname = {"Zahl": "eine Zahl", "Kommazahl": "eine Kommazahl", "Byte": "einen Byte", "Wahrheitswert": "einen Wahrheitswert", "Buchstabe": "einen Buchstaben", "Text": "einen Text",
+               "Zahlen Liste": "eine Zahlen Liste", "Text Liste": "eine Text Liste"}
+    for dst in TYPES:
+        for src in TYPES:
+            art, dv = TYPES[dst]
+            sart, sv = TYPES[src]
+            if not assignable(src, dst):
+                f1 = "Die Funktion nimm%%N%% mit dem Parameter a vom Typ %s, gibt nichts zurück, macht:\n\tVerlasse die Funktion.\nUnd kann so benutzt werden:\n\t\"nimm%%N%% <a>\"\n" % dst
+                out.append(("argument type %s for %s" % (src, dst), f1 + "nimm%%N%% %s.\n" % sv, f1 + "nimm%%N%% %s.\n" % dv, {}))
+                out.append(("returned value type %s for %s" % (src, dst), fn("gib%N%", retname[dst], "\tGib %s zurück." % sv), fn("gib%N%", retname[dst], "\tGib %s zurück." % dv), {}))
+            if src != dst:      # a Referenz needs exactly the type (no numeric conversion)
+                f2 = "Die Funktion setze%%N%% mit dem Parameter a vom Typ %s, gibt nichts zurück, macht:\n\tVerlasse die Funktion.\nUnd kann so benutzt werden:\n\t\"setze%%N%% <a>\"\n" % refname[dst]
+                out.append(("Referenz argument type %s for %s" % (src, dst), f2 + "%s %s rv%%N%% ist %s.\nsetze%%N%% rv%%N%%.\n" % (sart, src, sv),
+                            f2 + "%s %s rv%%N%% ist %s.\nsetze%%N%% rv%%N%%.\n" % (art, dst, dv), {}))
     ovl = ("Die Funktion zeigz%N% mit dem Parameter x vom Typ Zahl, gibt nichts zurück, macht:\n\tDie Zahl q%N% ist x.\nUnd kann so benutzt werden:\n\t\"zeige%N% <x>\"\n"
            "Die Funktion zeigt%N% mit dem Parameter x vom Typ Text, gibt nichts zurück, macht:\n\tDer Text q%N% ist x.\nUnd kann so benutzt werden:\n\t\"zeige%N% <x>\"\n")
     out.append(("wrong article in argument of overloaded user alias", ovl + "zeige%N% (die Größe von einem Zahl).\n", ovl + "zeige%N% (die Größe von einer Zahl).\n", {}))
@@ -252,8 +298,9 @@ def run(tier):
         uniq = 0
         for bi, base in enumerate(bases):
             cases = []
-            picks = rnd.sample(range(len(stm)), min(len(stm), per_base * 2 // 3))
-            for k in picks:
+            picks = set(rnd.sample(range(len(stm)), min(len(stm), per_base * 2 // 3)))
+            picks |= {k for k in range(len(stm)) if k % nbases == bi % nbases}       # every catalogue entry at least once per run
+            for k in sorted(picks):
                 cls, bad, good = stm[k]
                 site = rnd.choice(SITES)
                 if cls in ("break outside loop", "continue outside loop") and site in ("loop", "nested"):
@@ -265,7 +312,8 @@ def run(tier):
                     cls, bad, good = opf[k]
                     site = rnd.choice(SITES)
                     cases.append((cls, site, place(bad, site), place(good, site), {}))
-            for k in rnd.sample(range(len(top)), min(len(top), per_base // 3)):
+            tpicks = set(rnd.sample(range(len(top)), min(len(top), per_base // 3))) | {k for k in range(len(top)) if k % nbases == bi % nbases}
+            for k in sorted(tpicks):
                 cls, bad, good, files = top[k]
                 cases.append((cls, "top", bad, good, files))
             jobs.append((bi, base, cases))
